@@ -100,6 +100,8 @@ def build(tier):
     h.root('truncate__v4', g + '(a: Vector4<S>) -> Vector3<S>', 'a.truncate()', ('value', v4[:3]), rule='K1 copy provenance')
     for k in range(4):
         h.root('truncate_n__%d' % k, g + '(a: &Vector4<S>) -> Vector3<S>', 'a.truncate_n(%d)' % k, ('value', [v4[i] for i in range(4) if i != k]), rule='K1 copy provenance')
+    for bad, tag in (('4', '4'), ('-1', 'neg'), ('isize::MAX', 'max'), ('isize::MIN', 'min')):
+        h.root('truncate_n__' + tag, g + '(a: &Vector4<S>) -> Vector3<S>', 'a.truncate_n(%s)' % bad, ('panic',))
     # quaternion: x, y, z then the scalar part; new takes the scalar first
     qs, qv = sq('a0')
     qall = qv + [qs]
